@@ -58,7 +58,7 @@ class Result:
             mine = self.fail_groups.get(k)
             if mine is None:
                 self.fail_groups[k] = {'kind': g['kind'], 'features': g['features'], 'count': g['count'],
-                                       'exemplars': list(g['exemplars'])}
+                                       'exemplars': list(g['exemplars']), 'shard': g.get('shard')}
             else:
                 mine['count'] += g['count']
                 for e in g['exemplars']:
